@@ -235,7 +235,6 @@ def classify(spec, hist, i, a_long, a_fresh):
             return 'stale-unreachable-module', False, {}
         if M == F:
             return 'stale-requested-file', False, {}
-        tM = st['lc'][M] if st['lc'][M] >= 0 else st['lm'][M]
         created = M in st['created_at'] and any(r < st['created_at'][M] for r in st['reqs'])
         paths = G.all_paths(spec, F, M)
         paths.sort(key=lambda p: (not consistent(p), len(p)))
@@ -248,7 +247,11 @@ def classify(spec, hist, i, a_long, a_fresh):
                     return ('created-after-failed-lookup%s-dist%d' % (star, len(p) - 1), True,
                             {'path': [[x, k] for x, k in p], 'importers_not_modified_since': held})
         for p in paths:
-            held = [x for x, _ in p[1:-1] if st['lm'][x] < tM]
+            # an importer that was not modified after the module it imports (on this path) was last modified
+            # keeps an analysis that may predate that modification; with strictly decreasing modification
+            # times from the requested file down to M every module on the path is re-examined
+            ids = [x for x, _ in p]
+            held = [ids[j] for j in range(1, len(ids) - 1) if st['lm'][ids[j]] < st['lm'][ids[j + 1]]]
             if held:
                 kind = 'star' if p[-1][1] == 'star' else 'indirect'
                 return ('stale-%s-import-dist%d' % (kind, len(p) - 1), True,
